@@ -23,8 +23,13 @@ var classesMain = []string{"uniform", "uniform", "clustered", "clustered", "wide
 func frame(t *rapid.T, labels *[]string) (E, aspect float64, c v2.Vec) {
 	E = g.Length(t, "extent", 1e-3, 1e4)
 	aspect = 1
-	if rapid.IntRange(0, 2).Draw(t, "aspect.k") == 0 {
+	switch rapid.IntRange(0, 3).Draw(t, "aspect.k") {
+	case 0:
 		aspect = g.LogUniform(t, "aspect", 0.05, 1)
+	case 1:
+		// strips: the set is up to 1000 times longer than wide (in x or in y, see "tall")
+		aspect = g.LogUniform(t, "aspect", 1e-3, 0.05)
+		*labels = append(*labels, "frame:strip")
 	}
 	switch rapid.IntRange(0, 3).Draw(t, "centre.k") {
 	case 0:
